@@ -65,6 +65,9 @@ def run(ctx):
         n = writercheck.explore(ctx, wm, cfg, r_ops, fs, pre, bound=0, nrandom=ctx.pick(2, 6), limit=10, sink=col)
         ctx.evaluations += n
   plugin_glue(ctx)
+  # the counters themselves: what was counted is published by the self-metrics report or still in the current interval
+  from . import instrsys
+  instrsys.section(ctx, 'C03', 'carbon-cache')
   # beyond the listed property: the tag registration queue the writer feeds (TagQueue.tla; deviations = drift)
   from . import tagsys
   wm.configure(None, None, None)
